@@ -20,7 +20,7 @@ RULE = ("schemas of depth <= 4 and width <= 6 with identifier keys whose option 
         "and mutated states: the state afterwards must equal 'supplied and not ignored options set to their normal "
         "form and marked user-defined, every other value and flag untouched'; non-trivial = >= 4 paths and >= 1 "
         "command line applied; distinct = distinct (schema, state, command line)")
-REQUIRED = ("parsed_arguments_reused_with_another_ignore_list", "parser_from_schema_method", "sections_nested_in_a_section_of_the_same_name", "mode_helper_replaces_an_earlier_field", "rejected_command_lines_applied_again", "schemas_with_names_of_schema_methods_or_odd_underscores", "schema_grown_after_enumeration", "paths_checked", "dotted_assignments_checked", "parsers_compared", "overrides_compared", "argv:empty",
+REQUIRED = ("membership_negatives", "schema_iterations_compared", "parsed_arguments_reused_with_another_ignore_list", "parser_from_schema_method", "sections_nested_in_a_section_of_the_same_name", "mode_helper_replaces_an_earlier_field", "rejected_command_lines_applied_again", "schemas_with_names_of_schema_methods_or_odd_underscores", "schema_grown_after_enumeration", "paths_checked", "dotted_assignments_checked", "parsers_compared", "overrides_compared", "argv:empty",
             "argv:bool-on", "argv:bool-off", "argv:bool-both-switches", "argv:value", "argv:repeated", "argv:invalid", "ignore:str", "ignore:list",
             "state:mutated", "depth>=3")
 ASSUMPTIONS = ["enumeration is judged on root schemas / configurations; membership is demanded of stored fields only",
@@ -256,6 +256,28 @@ def run(case, ctx, res):
             if fam != "virtual" and path not in cfg:
                 res.viol("M-names", "membership", "%r is enumerated and readable but `in cfg` is False" % path)
                 return None
+            # ... and names that are not paths of the schema are not members: below a leaf, next to the field
+            if not root.get("dynamic") and not any(n.get("dynamic") for _p, n in spec.walk(root) if n["kind"] == "schema"):
+                for bogus in ([path + ".nope"] if fam not in ("schema", "ctype") else []) + [path + "_nope_zz"]:
+                    if bogus in listed:
+                        continue
+                    res.count("membership_negatives")
+                    try:
+                        inside = bogus in cfg
+                    except Exception as exc:
+                        res.viol("M-names", "membership-raises", "`%r in cfg` raised %r" % (bogus, exc))
+                        return None
+                    if inside:
+                        res.viol("M-names", "membership-of-unknown", "%r is not a path of the schema but `in cfg` is True" % bogus)
+                        return None
+        # iterating a schema lists its own keys and fields, in declaration order
+        res.count("schema_iterations_compared")
+        top = [(k, f) for k, f in schema]
+        own = [(p, f) for p, _o, f in fields if "." not in p]
+        if [k for k, _f in top] != [p for p, _f in own] or any(a[1] is not b[1] for a, b in zip(top, own)):
+            res.viol("M-names", "schema-iteration" + stage, "iterating the schema gives %r, its top-level fields are %r" % (
+                [k for k, _f in top], [p for p, _f in own]))
+            return None
         return fields
 
     # ---- (1) naming: on the schema as built, and again after the schema has grown (fields added to nested schemas
